@@ -101,6 +101,10 @@ def main(ctx: Ctx) -> int:
             cases.append({"fmt": "leeds", "code": 4, "a": 2.5e-10, "b": 0.0, "c": c_, "sh": sh_, "r1": sh_})
     for c_ in (-2.5, 2.5):
         cases.append({"fmt": "uclchem", "code": "PHOTON", "a": 2.5e-10, "b": 0.0, "c": c_, "sh": "CO", "r1": "CO"})
+    # whole-number coefficients large enough that their product leaves the range of a C `int` (were they ever written as integer literals)
+    for c_ in (50000.0, 123456.0, -70000.0):
+        cases.append({"fmt": "naunet", "code": 111, "a": 2.5e-10, "b": 2.0, "c": c_, "sh": "", "r1": "CH"})
+        cases.append({"fmt": "naunet", "code": 110, "a": 2.5e-10, "b": 3.0, "c": c_, "sh": "", "r1": "CH"})
     # KIDA lines whose coefficients carry more digits than the database prints (the columns are blank-separated and read as written)
     for code_ in (1, 2, 3, 4, 5):
         cases.append({"fmt": "kida", "code": code_, "a": 4.6712345e-10, "b": -0.33333333, "c": 304.56789, "sh": "", "r1": "CH", "long": True})
